@@ -34,6 +34,11 @@
 //                ~<path>:<k>        Pipeline::remove(handlers()[k])
 //                !<path>:           SortedPipeline::clearSinks()
 //              file sinks are numbered in creation order (s<k>.log)
+//              a sink letter F or R followed by @<k> (in the tree or in a + / ^ item) = a NEW file sink (own number) on the
+//              file of sink k: two sinks (two QFile objects) appending to one file
+//                &<k>:<n>           a second, short-lived Logger object with a FileSink on s<k>.log (takes a sink number) logs
+//                                   n records (ids from 1000000, 10 bytes) and is destroyed
+//              size 0 = the EMPTY text, size -n = a text of n blanks (also for <fatalsize>)
 // Built with -DVERIF_NO_THREAD (library with -DQTLOGGER_NO_THREAD): the asynchronous front-ends (ONEA1/ONEA2)
 // and every thread mode but `main` do not exist (exit status 2): the single-threaded logger has no mutex.
 //     end    : fatal | kill
@@ -65,6 +70,8 @@ using namespace QtLogger;
 
 static std::string text_of(int id, int size)
 {
+    if (size <= 0)   // size 0: the EMPTY text; size -n: a text of n blanks (whitespace only); such a record carries no id
+        return std::string(-size, ' ');
     std::string s = std::to_string(id) + ":";
     if ((int)s.size() < size)
         s.append(size - s.size(), char('a' + id % 26));
@@ -77,7 +84,7 @@ static void emit_msg(int, const Msg &m)
 {
     const int id = m.id;
     if (m.t == 'f') { gQtLogger.flush(); return; }   // an explicit flush() between two messages
-    if (m.t == '+' || m.t == '^' || m.t == '~' || m.t == '!') { apply_op(m.op); return; }   // a reconfiguration
+    if (m.t == '+' || m.t == '^' || m.t == '~' || m.t == '!' || m.t == '&') { apply_op(m.op); return; }   // a reconfiguration
     const std::string s = text_of(id, m.size);
     char t = m.t == 'm' ? "diwc"[id % 4] : m.t;
     if (t == 'z') {
@@ -102,8 +109,16 @@ static void emit_msg(int, const Msg &m)
 }
 static QString g_dir;
 static int g_nsink = 0;
+static int g_ntmp = 0;   // records logged through temporary Logger objects (& items)
 static const int big = 1 << 30;
 static QString next_path() { return g_dir + QStringLiteral("/s%1.log").arg(g_nsink++); }
+// a sink written <letter>@<k> takes its own sink number but logs to the file of sink k (s<k>.log): two file sinks, ONE file
+static QString next_path_or(int alias)
+{
+    if (alias < 0) return next_path();
+    g_nsink++;
+    return g_dir + QStringLiteral("/s%1.log").arg(alias);
+}
 // a directory that occupies the name the first rotation of today would use: the rename fails
 static void block_rotation(int k)
 {
@@ -114,11 +129,20 @@ static void block_rotation(int k)
 static bool build_into(Pipeline *root, const std::string &tree)
 {
     std::vector<Pipeline *> stack { root };
-    auto path = []() { return next_path(); };
+    int alias = -1;
+    auto path = [&alias]() { return next_path_or(alias); };
     int &nsink = g_nsink;
     int depth = 0;
-    for (char c : tree) {
+    for (size_t ti = 0; ti < tree.size(); ti++) {
+        const char c = tree[ti];
         Pipeline *cur = stack.back();
+        alias = -1;
+        if (ti + 1 < tree.size() && tree[ti + 1] == '@') {   // <sink letter>@<k>: same file as sink k
+            size_t tj = ti + 2;
+            alias = 0;
+            while (tj < tree.size() && isdigit((unsigned char)tree[tj])) alias = alias * 10 + (tree[tj++] - '0');
+            ti = tj - 1;
+        }
         switch (c) {
         case 'o': cur->append(PatternFormatterPtr::create(QStringLiteral("%{message}"))); break;
         case 'F': cur->append(FileSinkPtr::create(path())); break;
@@ -187,8 +211,10 @@ static void apply_op(const std::string &it)
             return;
         }
         auto *sp = dynamic_cast<SimplePipeline *>(cur);
-        if (kind == '^' && sp && arg == "F") sp->sendToFile(next_path());
-        else if (kind == '^' && sp && arg == "R") sp->sendToFile(next_path(), big, 0);
+        const int alias = arg.size() > 2 && arg[1] == '@' ? atoi(arg.c_str() + 2) : -1;   // F@<k> / R@<k>: the file of sink k
+        const bool single = arg.size() == 1 || (alias >= 0 && arg.find_first_not_of("0123456789", 2) == std::string::npos);
+        if (kind == '^' && sp && single && arg[0] == 'F') sp->sendToFile(next_path_or(alias));
+        else if (kind == '^' && sp && single && arg[0] == 'R') sp->sendToFile(next_path_or(alias), big, 0);
         else build_into(cur, arg);
     } else if (kind == '~') {
         if (!cur) return;
@@ -197,6 +223,16 @@ static void apply_op(const std::string &it)
         if (k < hs.size()) { HandlerPtr h = hs.at(k); cur->remove(h); }
     } else if (kind == '!') {
         if (auto *sp = dynamic_cast<SortedPipeline *>(cur)) sp->clearSinks();
+    } else if (kind == '&') {
+        // &<k>:<n>  a SECOND, short-lived Logger object with a file sink on the file of sink k (it takes a sink number):
+        // it logs n records of its own (ids 1000000, 1000001, .. over the whole run, 10 bytes) and goes out of scope
+        const int k = atoi(ps.c_str()), n = atoi(arg.c_str());
+        Logger tmp;
+        tmp.append(PatternFormatterPtr::create(QStringLiteral("%{message}")));
+        tmp.append(FileSinkPtr::create(next_path_or(k)));
+        QMessageLogContext ctx;
+        for (int j = 0; j < n; j++)
+            tmp.processMessage(QtInfoMsg, ctx, QString::fromStdString(text_of(1000000 + g_ntmp++, 10)));
     }
 }
 int main(int argc, char **argv)
@@ -279,7 +315,7 @@ int main(int argc, char **argv)
             size_t j = ms.find(',', i);
             std::string it = ms.substr(i, j == std::string::npos ? std::string::npos : j - i);
             char t = it[0];
-            if (t == '+' || t == '^' || t == '~' || t == '!') {   // a reconfiguration: kept as text
+            if (t == '+' || t == '^' || t == '~' || t == '!' || t == '&') {   // a reconfiguration: kept as text
                 msgs.push_back({ t, 0, -1, it });
                 if (j == std::string::npos) break;
                 i = j + 1;
